@@ -51,6 +51,7 @@ def dispatch (line : String) : String :=
     | "ctor" => C06.ctorOp args
     | "racc" => C15.raccOp args
     | "cstall" => PoolOp.cstallOp args
+    | "tstall" => PoolOp.tstallOp args
     | "shut" => PoolOp.shutOp args
     | "transports" => C18.transportsOp args
     | "body" => C10.bodyOp args
